@@ -10,6 +10,8 @@ use crate::error::Error;
 /// and the specification seems to indicate that the first argument is
 /// the only one considered, so we're doing the same.
 pub fn log(items: &Vec<&Value>) -> Result<Value, Error> {
+    #[cfg(feature = "verif_hooks")]
+    crate::verif_hook::point("log");
     println!("{}", items[0]);
     Ok(items[0].clone())
 }
